@@ -763,3 +763,121 @@ func (w *world) sameCapCase(target bool) {
 	}
 	w.endblock("R")
 }
+
+// bigBatchCase: remote batches of more than 256 limit orders (the repository's own tests stop at 255) with deliberately
+// repeated (address, amountForSale, requestedAmount) contents at distances 1, 255, 256, 257, 512 and random. The
+// payouts of HandleDexBatchOrders go through a map keyed by the per-order hash key (block hash, index, content
+// without order id): every order must be paid what ITS OWN execution produced, at most once, and only if it was
+// among the ≤ 250 orders settled in the block. Checked on the real state: settled ≤ cap; the counter-reserve ledger
+// (CounterPoolSize of the rotated batch) moved by exactly the inputs of the paid orders; every account gained exactly
+// the receipts of its orders; and — with a withdrawal in the batch, which rewrites the pool from the AMM ledger —
+// Σ receipts = ledger debit (token conservation).
+func (w *world) bigBatchCase(k, maxN int) {
+	w.tag = ":order-key-collision"
+	w.chains = []uint64{2}
+	w.initEnv("R", 1, 1, 0, 2)
+	lp := w.addrs[0]
+	pool := uint64(1_000_000_000 + w.r.Int63n(1<<42))
+	w.setpool("R", 2+liquidityAdd, pool, 20, []*lib.PoolPoints{{Address: dead, Points: 10}, {Address: lp, Points: 10}})
+	n := 257 + w.r.Intn(maxN-256)
+	if k%5 == 0 {
+		n = 513 + w.r.Intn(90) // room for distance 512
+	}
+	traders := w.addrs[1:]
+	mk := func() *lib.DexLimitOrder {
+		req := uint64(1)
+		if w.r.Intn(12) == 0 {
+			req = 1 << 60 // fails its limit
+		}
+		return &lib.DexLimitOrder{Address: traders[w.r.Intn(len(traders))], AmountForSale: uint64(1000 + w.r.Intn(200_000)), RequestedAmount: req}
+	}
+	b := &lib.DexBatch{Committee: 1, PoolSize: uint64(1_000_000_000 + w.r.Int63n(1<<42)), ReceiptHash: drv.Bytes(w.r, 32)}
+	switch k % 3 {
+	case 0: // all orders have one content
+		o := mk()
+		o.RequestedAmount = 1
+		for i := 0; i < n; i++ {
+			b.Orders = append(b.Orders, &lib.DexLimitOrder{Address: o.Address, AmountForSale: o.AmountForSale, RequestedAmount: o.RequestedAmount})
+		}
+	case 1: // random contents with planted copies at the critical distances
+		for i := 0; i < n; i++ {
+			b.Orders = append(b.Orders, mk())
+		}
+		for _, d := range []int{1, 255, 256, 257, 512, 256, 256, 1 + w.r.Intn(n-1)} {
+			for r := 0; r < 6; r++ {
+				if i := w.r.Intn(n); i+d < n {
+					src := b.Orders[i]
+					b.Orders[i+d] = &lib.DexLimitOrder{Address: src.Address, AmountForSale: src.AmountForSale, RequestedAmount: src.RequestedAmount}
+				}
+			}
+		}
+	default: // a handful of contents, repeated at random distances
+		var kinds []*lib.DexLimitOrder
+		for i := 0; i < 2+w.r.Intn(3); i++ {
+			kinds = append(kinds, mk())
+		}
+		for i := 0; i < n; i++ {
+			src := kinds[w.r.Intn(len(kinds))]
+			b.Orders = append(b.Orders, &lib.DexLimitOrder{Address: src.Address, AmountForSale: src.AmountForSale, RequestedAmount: src.RequestedAmount})
+		}
+	}
+	for _, o := range b.Orders {
+		o.OrderId = w.freshID()
+	}
+	withdraw := k%2 == 0
+	if withdraw {
+		b.Withdrawals = []*lib.DexLiquidityWithdraw{{Address: lp, Percent: uint64(1 + w.r.Intn(60)), OrderId: w.freshID()}}
+	}
+	st, before, after := w.dexbatch("R", 2, false, b)
+	if st != "ok" {
+		w.o.Count("bigbatch:" + st)
+		return
+	}
+	nl := after.Locked[2]
+	if nl == nil || len(nl.Receipts) != len(b.Orders) {
+		w.o.Fail("C20:receipts-misaligned"+w.tag, fmt.Sprintf("%d orders, receipts %v", len(b.Orders), nl), w.replay())
+		return
+	}
+	settled := 0
+	inputs := new(big.Int)
+	gain := map[string]*big.Int{}
+	for i, r := range nl.Receipts {
+		if r != 0 {
+			settled++
+			inputs.Add(inputs, new(big.Int).SetUint64(b.Orders[i].AmountForSale))
+			a := string(b.Orders[i].Address)
+			if gain[a] == nil {
+				gain[a] = new(big.Int)
+			}
+			gain[a].Add(gain[a], new(big.Int).SetUint64(r))
+		}
+	}
+	w.o.Count(fmt.Sprintf("bigbatch:orders>256:settled=%v", settled == lib.MaxOrdersSettledPerBlock))
+	if settled > lib.MaxOrdersSettledPerBlock {
+		w.o.Fail("C20:settled-exceeds-cap"+w.tag, fmt.Sprintf("%d orders paid in one block (cap %d), batch of %d", settled, lib.MaxOrdersSettledPerBlock, len(b.Orders)), w.replay())
+	}
+	if !withdraw {
+		// the counter-reserve ledger moved by exactly the inputs of the orders that were paid
+		dx := new(big.Int).Sub(new(big.Int).SetUint64(nl.CounterPoolSize), new(big.Int).SetUint64(b.PoolSize))
+		if dx.Cmp(inputs) != 0 {
+			w.o.Fail("C20:paid-without-ledger-update"+w.tag, fmt.Sprintf("counter reserve moved by %s, inputs of the %d paid orders %s", dx, settled, inputs), w.replay())
+		}
+	}
+	bal := func(s *Snapshot, a string) *big.Int {
+		for _, x := range s.Accounts {
+			if string(x.Address) == a {
+				return new(big.Int).SetUint64(x.Amount)
+			}
+		}
+		return new(big.Int)
+	}
+	for _, t := range traders {
+		g := gain[string(t)]
+		if g == nil {
+			g = new(big.Int)
+		}
+		if d := new(big.Int).Sub(bal(after, string(t)), bal(before, string(t))); d.Cmp(g) != 0 {
+			w.o.Fail("C20:account-gain-ne-receipts"+w.tag, fmt.Sprintf("account %x gained %s, its receipts sum to %s", t, d, g), w.replay())
+		}
+	}
+}
